@@ -39,6 +39,7 @@ type Engine struct {
 	ghostVars   map[string]bool
 	ghostFields map[string]*SpecFunc
 	fileCache   map[string][]byte
+	aliases     map[string]map[string]string // package path -> import alias/name -> import path
 }
 
 func (sf *SpecFunc) String() string { return sf.Name }
@@ -182,10 +183,29 @@ func (e *Engine) load(patterns []string) error {
 	if len(errs) > 0 {
 		return fmt.Errorf("package errors: %s", strings.Join(errs, "; "))
 	}
+	if e.aliases == nil {
+		e.aliases = map[string]map[string]string{}
+	}
 	for _, p := range e.pkgs {
 		if p.TypesInfo == nil {
 			continue
 		}
+		am := map[string]string{}
+		for _, f := range p.Syntax {
+			for _, im := range f.Imports {
+				path := strings.Trim(im.Path.Value, "\"")
+				name := ""
+				if im.Name != nil {
+					name = im.Name.Name
+				} else if ip := p.Imports[path]; ip != nil {
+					name = ip.Name
+				}
+				if name != "" && name != "_" && name != "." {
+					am[name] = path
+				}
+			}
+		}
+		e.aliases[p.PkgPath] = am
 		for _, f := range p.Syntax {
 			for _, d := range f.Decls {
 				switch x := d.(type) {
@@ -286,4 +306,29 @@ func (e *Engine) fileBytes(name string) []byte {
 	}
 	e.fileCache[name] = b
 	return b
+}
+
+// importedPkg resolves a package qualifier used inside package `from` (import
+// alias or package name) to the loaded package.
+func (e *Engine) importedPkg(from *types.Package, qual string) *types.Package {
+	if from != nil {
+		if am := e.aliases[from.Path()]; am != nil {
+			if path, ok := am[qual]; ok {
+				if p := e.pkgs[path]; p != nil && p.Types != nil {
+					return p.Types
+				}
+			}
+		}
+		for _, imp := range from.Imports() {
+			if imp.Name() == qual {
+				return imp
+			}
+		}
+	}
+	for _, p := range e.pkgs {
+		if p.Types != nil && p.Types.Name() == qual {
+			return p.Types
+		}
+	}
+	return nil
 }
